@@ -28,6 +28,7 @@ structure EnvRel (I : Interp) (env : Env) (p : Evm.Params) (f : Evm.Frame) : Pro
         (env.cd off).eval I = Evm.bytesToNat (Evm.readBytes f.calldata off 32)
   cdByte : ∀ i, (env.cdByte i).WF ∧ (env.cdByte i).width = 8 ∧ (env.cdByte i).eval I = (f.calldata[i]?).getD 0
   cdSize : env.cdSize = f.calldata.length
+  isStatic : env.isStatic = f.isStatic
 
 /-- the valuation `I` satisfies every path condition -/
 def Sat (I : Interp) (π : List B) : Prop := ∀ b ∈ π, b.eval I = true
@@ -65,11 +66,26 @@ structure R (I : Interp) (env : Env) (code : List Nat) (p : Evm.Params) (st : SS
   env : EnvRel I env p f
   subst : SubstOk I st
   mem : MemRel I st.mem f.mem
+  retdata : MemRel I st.returndata f.returndata
 
-/-- concrete reachability through non-halting core steps (the world is untouched by the core set) -/
-inductive CReach (p : Evm.Params) (w : Evm.World) : Evm.Frame → Evm.Frame → Prop where
-  | refl (f) : CReach p w f f
-  | tail {f g h} : CReach p w f g → Evm.step p w g = .next w h → CReach p w f h
+/-- concrete reachability through non-halting steps: (world, frame) pairs (only SSTORE / TSTORE change the world) -/
+inductive CReach (p : Evm.Params) : Evm.World × Evm.Frame → Evm.World × Evm.Frame → Prop where
+  | refl (x) : CReach p x x
+  | tail {x w g w' h} : CReach p x (w, g) → Evm.step p w g = .next w' h → CReach p x (w', h)
+
+/-- the symbolic storage maps of the executing account `this` against the concrete world `w`, for a run started in the
+    world `w0`: the account's storage and transient storage are zero in `w0` (halmos' non-symbolic initial storage);
+    every slot of `this` holds, in `w`, the value of the term last stored (zero if never written); every bound term is
+    a well-formed 256-bit term; nothing else of the world differs from `w0` -/
+structure WRel (I : Interp) (w0 w : Evm.World) (this : Nat) (sto tr : List (Nat × T)) : Prop where
+  zero : ∀ slot, Evm.lookupD w0.storage (this, slot) = 0 ∧ Evm.lookupD w0.transient (this, slot) = 0
+  hsto : ∀ slot, Evm.lookupD w.storage (this, slot) = (stoGet sto slot).eval I
+  htr : ∀ slot, Evm.lookupD w.transient (this, slot) = (stoGet tr slot).eval I
+  wf : ∀ kv, kv ∈ sto ∨ kv ∈ tr → kv.2.WF ∧ kv.2.width = 256
+  other : ∀ a slot, a ≠ this → Evm.lookupD w.storage (a, slot) = Evm.lookupD w0.storage (a, slot) ∧
+            Evm.lookupD w.transient (a, slot) = Evm.lookupD w0.transient (a, slot)
+  rest : w.code = w0.code ∧ w.balance = w0.balance ∧ w.balanceDefault = w0.balanceDefault ∧
+           w.created = w0.created ∧ w.logs = w0.logs
 
 theorem StackRel.length {I ss cs} (h : StackRel I ss cs) : ss.length = cs.length := by
   induction h with
@@ -159,33 +175,43 @@ theorem StackRel.take_drop {I ss cs} (h : StackRel I ss cs) (n : Nat) :
 
 /-- the environment relation only looks at the fields a core step never changes -/
 theorem EnvRel.congr {I env p f f'} (h : EnvRel I env p f) (h1 : f'.caller = f.caller) (h2 : f'.value = f.value)
-    (h3 : f'.this = f.this) (h4 : f'.calldata = f.calldata) : EnvRel I env p f' :=
+    (h3 : f'.this = f.this) (h4 : f'.calldata = f.calldata) (h5 : f'.isStatic = f.isStatic) : EnvRel I env p f' :=
   ⟨by rw [h1]; exact h.caller, h.origin, by rw [h2]; exact h.callvalue, by rw [h3]; exact h.address,
-   by rw [h4]; exact h.cd, by rw [h4]; exact h.cdByte, by rw [h4]; exact h.cdSize⟩
+   by rw [h4]; exact h.cd, by rw [h4]; exact h.cdByte, by rw [h4]; exact h.cdSize, by rw [h5]; exact h.isStatic⟩
 
 theorem SubstOk.same {I : Interp} {st st' : SState} (h : SubstOk I st) (hs : st'.subst = st.subst)
     (hp : st'.path = st.path) : SubstOk I st' := by
   unfold SubstOk; rw [hs, hp]; exact h
 
+/-- what a core step leaves alone in the concrete frame -/
+def SameCtx (f' f : Evm.Frame) : Prop :=
+  f'.code = f.code ∧ f'.caller = f.caller ∧ f'.value = f.value ∧ f'.this = f.this ∧ f'.calldata = f.calldata ∧
+  f'.isStatic = f.isStatic ∧ f'.returndata = f.returndata
+
+/-- `SameCtx` for a frame built by record update of `f` -/
+macro "sc!" : term => `((by exact ⟨rfl, rfl, rfl, rfl, rfl, rfl, rfl⟩))
+
 /-- re-establish `R` after a core step: only pc and stack need attention (and the concretization map, when the path
     grew; the memory, when it was written) -/
-theorem R.next {I env code p st f st' f'} (h : R I env code p st f) (hc : f'.code = f.code)
-    (h1 : f'.caller = f.caller) (h2 : f'.value = f.value) (h3 : f'.this = f.this) (h4 : f'.calldata = f.calldata)
+theorem R.next {I env code p st f st' f'} (h : R I env code p st f) (hctx : SameCtx f' f)
+    (hsr : st'.returndata = st.returndata)
     (hpc : f'.pc = st'.pc) (hstk : StackRel I st'.stack f'.stack) (hso : SubstOk I st')
     (hm : MemRel I st'.mem f'.mem) : R I env code p st' f' :=
-  ⟨hc.trans h.code, hpc, hstk, h.env.congr h1 h2 h3 h4, hso, hm⟩
+  ⟨hctx.1.trans h.code, hpc, hstk, h.env.congr hctx.2.1 hctx.2.2.1 hctx.2.2.2.1 hctx.2.2.2.2.1 hctx.2.2.2.2.2.1, hso, hm,
+   by rw [hsr, hctx.2.2.2.2.2.2]; exact h.retdata⟩
 
 /-- the common case: path, concretization map and memory untouched -/
-theorem R.next' {I env code p st f st' f'} (h : R I env code p st f) (hc : f'.code = f.code)
-    (h1 : f'.caller = f.caller) (h2 : f'.value = f.value) (h3 : f'.this = f.this) (h4 : f'.calldata = f.calldata)
+theorem R.next' {I env code p st f st' f'} (h : R I env code p st f) (hctx : SameCtx f' f)
     (hs : st'.subst = st.subst) (hp : st'.path = st.path) (hsm : st'.mem = st.mem) (hfm : f'.mem = f.mem)
+    (hsr : st'.returndata = st.returndata)
     (hpc : f'.pc = st'.pc) (hstk : StackRel I st'.stack f'.stack) : R I env code p st' f' :=
-  h.next hc h1 h2 h3 h4 hpc hstk (h.subst.same hs hp) (by rw [hsm, hfm]; exact h.mem)
+  h.next hctx hsr hpc hstk (h.subst.same hs hp) (by rw [hsm, hfm]; exact h.mem)
 
-/-- `R` looks at pc, stack, memory and the concretization map only -/
+/-- `R` looks at pc, stack, memory, return data and the concretization map only -/
 theorem R.congr {I env code p st st' f} (h : R I env code p st f) (hpc : st'.pc = st.pc)
-    (hstk : st'.stack = st.stack) (hsm : st'.mem = st.mem) (hso : SubstOk I st') : R I env code p st' f :=
-  ⟨h.code, h.pc.trans hpc.symm, hstk ▸ h.stack, h.env, hso, hsm ▸ h.mem⟩
+    (hstk : st'.stack = st.stack) (hsm : st'.mem = st.mem) (hsr : st'.returndata = st.returndata)
+    (hso : SubstOk I st') : R I env code p st' f :=
+  ⟨h.code, h.pc.trans hpc.symm, hstk ▸ h.stack, h.env, hso, hsm ▸ h.mem, hsr ▸ h.retdata⟩
 
 theorem R.op_eq {I env code p st f} (h : R I env code p st f) : (f.code[f.pc]?).getD 0 = opAt code st.pc := by
   rw [h.code, h.pc]; rfl
@@ -250,6 +276,13 @@ theorem addCond_visits (s : Simp) (st : SState) (c : B) : (addCond s st c).visit
 
 theorem addCond_mem (s : Simp) (st : SState) (c : B) : (addCond s st c).mem = st.mem := by
   rcases addCond_cases s st c with ⟨h, _⟩ | h <;> rw [h]
+
+theorem addCond_returndata (s : Simp) (st : SState) (c : B) : (addCond s st c).returndata = st.returndata := by
+  rcases addCond_cases s st c with ⟨h, _⟩ | h <;> rw [h]
+
+theorem addCond_storage (s : Simp) (st : SState) (c : B) :
+    (addCond s st c).storage = st.storage ∧ (addCond s st c).transient = st.transient := by
+  rcases addCond_cases s st c with ⟨h, _⟩ | h <;> rw [h] <;> exact ⟨rfl, rfl⟩
 
 /-- paths only grow -/
 theorem addCond_path_ext (s : Simp) (st : SState) (c : B) : ∃ ext, (addCond s st c).path = st.path ++ ext := by
@@ -334,6 +367,20 @@ theorem addConds_mem (s : Simp) (aux : List B) (st : SState) : (aux.foldl (addCo
   | nil => rfl
   | cons c aux ih => rw [List.foldl_cons, ih, addCond_mem]
 
+theorem addConds_returndata (s : Simp) (aux : List B) (st : SState) :
+    (aux.foldl (addCond s) st).returndata = st.returndata := by
+  induction aux generalizing st with
+  | nil => rfl
+  | cons c aux ih => rw [List.foldl_cons, ih, addCond_returndata]
+
+theorem addConds_storage (s : Simp) (aux : List B) (st : SState) :
+    (aux.foldl (addCond s) st).storage = st.storage ∧ (aux.foldl (addCond s) st).transient = st.transient := by
+  induction aux generalizing st with
+  | nil => exact ⟨rfl, rfl⟩
+  | cons c aux ih =>
+    rw [List.foldl_cons]
+    exact ⟨(ih _).1.trans (addCond_storage s st c).1, (ih _).2.trans (addCond_storage s st c).2⟩
+
 theorem addConds_path_ext (s : Simp) (aux : List B) (st : SState) :
     ∃ ext, (aux.foldl (addCond s) st).path = st.path ++ ext := by
   induction aux generalizing st with
@@ -381,27 +428,27 @@ end
 
 /-! ### concrete reachability and termination -/
 
-theorem CReach.trans {p w f g h} (h1 : CReach p w f g) (h2 : CReach p w g h) : CReach p w f h := by
+theorem CReach.trans {p x y z} (h1 : CReach p x y) (h2 : CReach p y z) : CReach p x z := by
   induction h2 with
   | refl => exact h1
   | tail _ hs ih => exact CReach.tail ih hs
 
-theorem CReach.single {p w f g} (h : Evm.step p w f = .next w g) : CReach p w f g :=
-  CReach.tail (CReach.refl f) h
+theorem CReach.single {p w f w' g} (h : Evm.step p w f = .next w' g) : CReach p (w, f) (w', g) :=
+  CReach.tail (CReach.refl _) h
 
-/-- the concrete run from `f` terminates with result `r` -/
+/-- the concrete run from `f` in the world `w` terminates with result `r` -/
 def Halts (p : Evm.Params) (w : Evm.World) (f : Evm.Frame) (r : Evm.World × Evm.Halt) : Prop :=
   ∃ n, Evm.exec p n w f = some r
 
-theorem exec_succ_next {p w f f'} (h : Evm.step p w f = .next w f') (n : Nat) :
-    Evm.exec p (n + 1) w f = Evm.exec p n w f' := by
+theorem exec_succ_next {p w f w' f'} (h : Evm.step p w f = .next w' f') (n : Nat) :
+    Evm.exec p (n + 1) w f = Evm.exec p n w' f' := by
   rw [Evm.exec]; simp only [h]
 
-theorem exec_succ_halt {p w f h'} (h : Evm.step p w f = .halt w h') (n : Nat) :
-    Evm.exec p (n + 1) w f = some (w, h') := by
+theorem exec_succ_halt {p w f w' h'} (h : Evm.step p w f = .halt w' h') (n : Nat) :
+    Evm.exec p (n + 1) w f = some (w', h') := by
   rw [Evm.exec]; simp only [h]
 
-theorem halts_next {p w f f' r} (h : Evm.step p w f = .next w f') : Halts p w f r ↔ Halts p w f' r := by
+theorem halts_next {p w f w' f' r} (h : Evm.step p w f = .next w' f') : Halts p w f r ↔ Halts p w' f' r := by
   constructor
   · rintro ⟨n, hn⟩
     cases n with
@@ -410,7 +457,7 @@ theorem halts_next {p w f f' r} (h : Evm.step p w f = .next w f') : Halts p w f 
   · rintro ⟨n, hn⟩
     exact ⟨n + 1, by rw [exec_succ_next h]; exact hn⟩
 
-theorem halts_halt {p w f h' r} (h : Evm.step p w f = .halt w h') : Halts p w f r ↔ r = (w, h') := by
+theorem halts_halt {p w f w' h' r} (h : Evm.step p w f = .halt w' h') : Halts p w f r ↔ r = (w', h') := by
   constructor
   · rintro ⟨n, hn⟩
     cases n with
@@ -419,14 +466,102 @@ theorem halts_halt {p w f h' r} (h : Evm.step p w f = .halt w h') : Halts p w f 
   · rintro rfl
     exact ⟨1, exec_succ_halt h 0⟩
 
-theorem halts_reach {p w f g r} (h : CReach p w f g) : Halts p w f r ↔ Halts p w g r := by
+theorem halts_reach {p x y r} (h : CReach p x y) : Halts p x.1 x.2 r ↔ Halts p y.1 y.2 r := by
   induction h with
   | refl => exact Iff.rfl
   | tail _ hs ih => exact ih.trans (halts_next hs)
 
 /-- a reachable frame at which the machine halts gives a terminating run of the whole program -/
-theorem exec_of_reach {p w f0 f h} (hr : CReach p w f0 f) (hs : Evm.step p w f = .halt w h) :
-    ∃ n, Evm.exec p n w f0 = some (w, h) :=
+theorem exec_of_reach {p w0 f0 w f w' h} (hr : CReach p (w0, f0) (w, f)) (hs : Evm.step p w f = .halt w' h) :
+    ∃ n, Evm.exec p n w0 f0 = some (w', h) :=
   (halts_reach hr).2 ((halts_halt hs).2 rfl)
+
+/-! ### storage maps -/
+
+theorem stoGet_cons (σ : List (Nat × T)) (slot : Nat) (t : T) (k : Nat) :
+    stoGet ((slot, t) :: σ) k = if k = slot then t else stoGet σ k := by
+  unfold stoGet
+  by_cases h : k = slot
+  · subst h; simp
+  · have : ¬ slot = k := fun e => h e.symm
+    simp [List.find?_cons, h, this]
+
+theorem lookupD_insert (m : List ((Nat × Nat) × Nat)) (k k' : Nat × Nat) (v d : Nat) :
+    Evm.lookupD (Evm.insert m k v) k' d = if k' = k then v else Evm.lookupD m k' d := by
+  unfold Evm.lookupD Evm.insert
+  by_cases h : k' = k
+  · subst h; simp
+  · have h1 : (k == k') = false := by
+      rw [beq_eq_false_iff_ne]; exact fun e => h e.symm
+    simp only [List.find?_cons, h1, h, if_false, List.find?_filter]
+    have : ∀ a : (Nat × Nat) × Nat, decide ((!(a.1 == k)) = true ∧ (a.1 == k') = true) = (a.1 == k') := by
+      intro a
+      by_cases ha : a.1 = k'
+      · have : (a.1 == k) = false := by rw [beq_eq_false_iff_ne, ha]; exact h
+        simp [ha, h]
+      · have : (a.1 == k') = false := by rw [beq_eq_false_iff_ne]; exact ha
+        simp [this]
+    simp only [this]
+
+/-- the world relation at the start: nothing written -/
+theorem WRel.init {I : Interp} {w0 : Evm.World} {this : Nat}
+    (hz : ∀ slot, Evm.lookupD w0.storage (this, slot) = 0 ∧ Evm.lookupD w0.transient (this, slot) = 0) :
+    WRel I w0 w0 this [] [] :=
+  ⟨hz, fun slot => (hz slot).1, fun slot => (hz slot).2,
+   fun kv h => by rcases h with h | h <;> exact absurd h List.not_mem_nil, fun _ _ _ => ⟨rfl, rfl⟩,
+   ⟨rfl, rfl, rfl, rfl, rfl⟩⟩
+
+/-- SSTORE of a well-formed word `v` (denoting `n`) at `slot` -/
+theorem WRel.sstore {I : Interp} {w0 w : Evm.World} {this : Nat} {sto tr : List (Nat × T)}
+    (h : WRel I w0 w this sto tr) (slot : Nat) {t : T} {n : Nat} (ht : t.WF ∧ t.width = 256) (he : t.eval I = n) :
+    WRel I w0 { w with storage := Evm.insert w.storage (this, slot) n } this ((slot, t) :: sto) tr := by
+  refine ⟨h.zero, ?_, h.htr, ?_, ?_, h.rest⟩
+  · intro k
+    simp only [lookupD_insert, stoGet_cons]
+    by_cases hk : k = slot
+    · subst hk; simp [he]
+    · have : ¬ (this, k) = (this, slot) := by simpa using hk
+      simp only [this, hk, if_false]; exact h.hsto k
+  · intro kv hkv
+    rcases hkv with hkv | hkv
+    · rcases List.mem_cons.1 hkv with rfl | hkv
+      · exact ht
+      · exact h.wf kv (Or.inl hkv)
+    · exact h.wf kv (Or.inr hkv)
+  · intro a k ha
+    have : ¬ (a, k) = (this, slot) := by
+      intro e; exact ha (Prod.mk.inj e).1
+    simp only [lookupD_insert, this, if_false]
+    exact h.other a k ha
+
+theorem WRel.tstore {I : Interp} {w0 w : Evm.World} {this : Nat} {sto tr : List (Nat × T)}
+    (h : WRel I w0 w this sto tr) (slot : Nat) {t : T} {n : Nat} (ht : t.WF ∧ t.width = 256) (he : t.eval I = n) :
+    WRel I w0 { w with transient := Evm.insert w.transient (this, slot) n } this sto ((slot, t) :: tr) := by
+  refine ⟨h.zero, h.hsto, ?_, ?_, ?_, h.rest⟩
+  · intro k
+    simp only [lookupD_insert, stoGet_cons]
+    by_cases hk : k = slot
+    · subst hk; simp [he]
+    · have : ¬ (this, k) = (this, slot) := by simpa using hk
+      simp only [this, hk, if_false]; exact h.htr k
+  · intro kv hkv
+    rcases hkv with hkv | hkv
+    · exact h.wf kv (Or.inl hkv)
+    · rcases List.mem_cons.1 hkv with rfl | hkv
+      · exact ht
+      · exact h.wf kv (Or.inr hkv)
+  · intro a k ha
+    have : ¬ (a, k) = (this, slot) := by
+      intro e; exact ha (Prod.mk.inj e).1
+    simp only [lookupD_insert, this, if_false]
+    exact h.other a k ha
+
+/-- a loaded term is a well-formed 256-bit term -/
+theorem stoGet_wf {σ : List (Nat × T)} (h : ∀ kv ∈ σ, kv.2.WF ∧ kv.2.width = 256) (slot : Nat) :
+    (stoGet σ slot).WF ∧ (stoGet σ slot).width = 256 := by
+  unfold stoGet
+  cases hf : σ.find? (fun kv => kv.1 == slot) with
+  | none => exact ⟨(by decide : 0 < 256), rfl⟩
+  | some kv => exact h kv (List.mem_of_find?_eq_some hf)
 
 end HalmosVerif.Lemmas.Sevm
